@@ -188,12 +188,27 @@ def check_reader(S, p):
                 if chk.tobytes() == typed.tobytes():
                     reqs.append({"op": "read_npy", "data": d3.hex()})
                     meta.append((name, dt, o, v, shape, expect, d3))
+    if p["i"] % 4 == 1:
+        # files with 2^15 .. 2^17 values of every width (a bulk decoder that splits the payload must split it by the FILE's item size)
+        rngb = rng_for(seed, "c15", p["name"], "big")
+        for _ in range(2):
+            dt, o = rngb.choice([("f4", "<"), ("i2", "<"), ("u2", ">"), ("i4", ">"), ("u1", "|"), ("f8", ">"), ("i8", "<"), ("i1", "|"), ("u4", "<")])
+            n_ = rngb.choice([65536, 65537, 70001, 32768, 131072, 100003])
+            base_ = (np.arange(n_) * 7919) % 251
+            typed = base_.astype(np.dtype((o if o != "|" else "") + dt))
+            shape = [n_] if rngb.random() < 0.5 or n_ % 2 else [2, n_ // 2]
+            typed = typed.reshape(shape)
+            v = rngb.choice([(1, 0), (2, 0)])
+            data = numpy_file(typed, v)
+            reqs.append({"op": "read_npy", "data": data.hex()})
+            meta.append(("numpy-big", dt, o, v, shape, typed.astype("<f8").reshape(-1), data))
+            S.count("reader_big_files")
     for (variant, dt, o, v, shape, expect, data), r in zip(meta, harness.run_all(reqs)):
         S.count("reader_files")
         S.count("reader_%s" % ("numpy_written" if variant == "numpy" and False else variant))
         S.observe("reader_dtype_order_version", "%s%s v%d" % (o, dt, v[0]))
         tag = "L read_npy %s%s v%d.%d %s shape %r" % (o, dt, v[0], v[1], variant, shape)
-        wit = {"level": "L", "file_hex": data.hex()}
+        wit = {"level": "L", "file_hex": data.hex() if len(data) < 100000 else None, "file": "numpy array (arange(n) * 7919) %% 251 as %s%s, shape %r, npy version %r" % (o, dt, shape, v)}
         if "data" not in r:
             S.viol("C15:reader-rejects:%s" % variant, "[%s] valid file rejected: %s" % (tag, str(r)[:200]), wit)
         else:
